@@ -479,7 +479,10 @@ def run_one(spec: dict) -> dict:
             return body
         sched.spawn(f"t{i}", mk())
 
-    mods = {"runner": runner_mod, "metadata_provider": mp_mod, "holders": holders_mod}
+    import sqllineage.core.parser.sqlfluff.analyzer as fluff_analyzer_mod
+    import sqllineage.core.parser.sqlparse.analyzer as parse_analyzer_mod
+
+    mods = {"runner": runner_mod, "metadata_provider": mp_mod, "holders": holders_mod, "analyzer": fluff_analyzer_mod, "legacy_analyzer": parse_analyzer_mod}
     want = [mods[m] for m in spec.get("line", [])]
     if _tracer is not None:
         _tracer.uninstall()
@@ -759,7 +762,7 @@ def gen(seed, tier="quick") -> dict:
                 if th_own and g.random() < 0.7:
                     run["provider"] = th_own[0]
                 th["runs"].insert(g.randrange(len(th["runs"]) + 1), run)
-    line_choices = [[], ["runner", "metadata_provider"], ["runner", "metadata_provider"]]
+    line_choices = [[], ["runner", "metadata_provider"], ["runner", "metadata_provider"], ["runner", "metadata_provider", "analyzer"], ["analyzer", "legacy_analyzer"]]
     if tier == "thorough":
         line_choices.append(["runner", "metadata_provider", "holders"])
     return {
